@@ -92,7 +92,7 @@ func init() {
 
 // seeds below lfDirected are the systematic enumeration
 // (running or not) x (3 ways of loading) x (every failure kind)
-const lfDirected = 6 * 35
+const lfDirected = 6 * 36
 
 var lfFailKinds = []string{
 	"syntax", "unknown-directive",
@@ -105,6 +105,7 @@ var lfFailKinds = []string{
 	"udp-port-in-use", // (with -quic only; "port-in-use" otherwise)
 	"setup-panic",     // (reloads only: a panic during Start is the end of the process)
 	"import-cycle",    // an imported file imports itself
+	"args:proxy-health-interval",
 }
 
 func sha(pass string) string {
@@ -255,6 +256,8 @@ func (r *lfRig) failLines(cfg *lfCfg, fail, root string) string {
 		return "\tlog /z " + filepath.Join(none, "sub", "z.log") + " {\n\t\trotate_disable\n\t}\n"
 	case "startup-callback:simcb":
 		return "\tsimcb FAILSTARTUP\n"
+	case "args:proxy-health-interval":
+		return "\tproxy /hc 127.0.0.1:1 {\n\t\thealth_check /health\n\t\thealth_check_interval 0\n\t}\n"
 	case "setup-panic":
 		return "\tsimfail panic\n"
 	case "import-cycle":
